@@ -158,14 +158,33 @@ def r19_3(ctx):
     loop_heads = {s for (_, s) in back2}
     after_loop = [h for h in hdrs if not any(h in u.reachable(lh, removed_edges=back2) and any(b in u.reachable(h, removed_edges=[]) for (b, s2) in back2 if s2 == lh) for lh in loop_heads)]
     # simpler and exact: a header block from which the loop back edge is not reachable
-    tail_hdrs = [h for h in hdrs if not any(b in u.reachable(h) for (b, _) in back2)]
+    # (only the main loop over the diff lines counts: a flush may contain loops of its own over the buffered lines)
+    main_back = [(b, h) for (b, h) in back2 if u.dominates(h, sb2)]
+    tail_hdrs = [h for h in hdrs if not any(b in u.reachable(h) for (b, _) in main_back)]
     ctx.check(len(tail_hdrs) >= 1, "diff:final-flush", u.where(), "a hunk flush after the loop emits what is still buffered",
               "the diff renderer has no hunk flush after its loop: the last differences are never written")
     if tail_hdrs and oks:
         # on the path to Ok after the loop, the `buffers non-empty` test is evaluated: the block testing is_some of the starts dominates Ok
-        tests = [bb for bb, t in u.calls() if mname(t) == "Option::is_some" and not any(b in u.reachable(bb) for (b, _) in back2)]
-        ctx.check(bool(tests) and all(any(u.dominates(tb, ob) for tb in tests) for ob in oks), "diff:final-flush-dominates", u.where(),
-                  "every path to Ok(output) passes the final `anything buffered?` test")
+        # (is_some() calls or a match over the two Option fields: any decision after the loop that looks at unmatched_start / unexpected_start)
+        tests, seen_fields = [], set()
+        for sb3, st3 in switches(u):
+            if any(b in u.reachable(sb3) for (b, _) in main_back):
+                continue
+            be3 = bool_edges(u, sb3)
+            if be3 is not None:
+                tree3 = cond_tree(u, sb3, ou)
+            else:
+                ve3, rv3 = variant_edges(u, sb3)
+                if ve3 is None:
+                    continue
+                tree3 = ou.operand({"copy": rv3["place"]})
+            flds = {n.a for n in tree3.walk() if n.kind == "field" and n.a in ("unmatched_start", "unexpected_start")}
+            if flds:
+                tests.append(sb3)
+                seen_fields |= flds
+        ctx.check(bool(tests) and seen_fields == {"unmatched_start", "unexpected_start"} and all(any(u.dominates(tb, ob) for tb in tests) for ob in oks),
+                  "diff:final-flush-dominates", u.where(), "every path to Ok(output) passes the final `anything buffered?` test (both hunk starts are examined)",
+                  "after the loop the decision to flush looks at %s only / does not dominate Ok" % sorted(seen_fields))
     # hunk writer closures emit the buffered lines
     for cb in prog.closures_of(u):
         oc = Origins(cb)
@@ -294,6 +313,48 @@ def r19_7(ctx):
     ctx.ok("gutter-padding-site", d.where(), "padding = width - digits(number) in Decorator::output_line_number (%d unsigned subtraction(s)); bounded by the rule above" % len(subs), obligation=False)
 
 
+REORDER_ONLY = {"sort", "sort_by", "sort_by_key", "sort_unstable", "sort_unstable_by", "sort_unstable_by_key", "sort_by_cached_key", "reverse", "as_mut_slice", "as_mut",
+                "deref_mut", "iter_mut", "index_mut"}
+DROPPING = ("dedup", "retain", "truncate", "drain", "pop", "remove", "swap_remove", "split_off", "clear", "filter", "take", "skip", "step_by", "take_while", "skip_while", "nth")
+
+
+def r19_8(ctx):
+    """no renderer loses an outcome on the way from its argument to its loop: the list may be copied and re-ordered, but no element-dropping
+    operation (dedup*, retain, truncate, drain, filter, take, skip ..) is applied to it"""
+    prog = ctx.prog
+    from .c16 import mut_calls
+    n = 0
+    for b in prog.bodies:
+        if b.promoted is not None or b.kind != "AssocFn" or b.name != "render" or not b.impl_trait or not b.impl_trait.endswith("Renderer") or "::tests" in b.npath:
+            continue
+        if not b.file.startswith("src/renderers/"):
+            continue
+        o = Origins(b)
+        # locals holding a list of outcomes
+        lists = [l for l in range(len(b.locals)) if "Outcome" in b.lty(l) and ("Vec<" in b.lty(l))]
+        bad = []
+        for l in lists:
+            for mb, mt in mut_calls(b, l):
+                last = mname(mt).split("::")[-1]
+                if last in REORDER_ONLY:
+                    continue
+                if any(last.startswith(d) for d in DROPPING):
+                    bad.append((b.loc(mb), mname(mt)))
+        # the loop source: no dropping adaptor between the argument and Iterator::next / for_each
+        for bb, t in b.calls():
+            if mname(t) in ("Iterator::next", "Iterator::for_each", "Iterator::map", "Iterator::fold") and "Outcome" in (t.get("self_ty") or ""):
+                src = o.operand(t["args"][0])
+                for x in src.walk():
+                    if x.kind == "call" and any(method_name(x.a).split("::")[-1].startswith(d) for d in DROPPING) and "Outcome" in x.a:
+                        bad.append((b.loc(bb), method_name(x.a)))
+        n += 1
+        ctx.check(not bad, "no-outcome-dropped:" + b.impl_self.split("::")[-1], b.where(),
+                  "%s::render iterates every outcome it was given (the list is at most copied and re-ordered)" % b.impl_self.split("::")[-1],
+                  "%s::render drops outcomes before rendering them: %s - a failed test case with the same key as another one (e.g. same location and line number "
+                  "through --prepend-test-file-paths) disappears from the report" % (b.impl_self.split("::")[-1], bad))
+    ctx.check(n >= 3, "renderers-found", "-", "%d Renderer::render implementations analysed" % n, "only %d Renderer::render implementations found" % n)
+
+
 def run(ctx):
     ctx.run_rule("R19.1", "no character count is used as a str byte offset in the renderers (incl. through helper results) [E-UNIT]", r19_1, floor=1)
     ctx.run_rule("R19.2", "exhaustive dispatch: render_error and both DiffLine switches give every variant its own arm [E-TABLE]", r19_2, floor=5)
@@ -301,4 +362,5 @@ def run(ctx):
     ctx.run_rule("R19.4", "a passing outcome writes nothing; failed outcomes go through render_error [E-PATH]", r19_4, floor=4)
     ctx.run_rule("R19.5", "structured renderers serialise the whole slice; Outcome always writes `result`; TestCaseError kinds distinct [E-TABLE]", r19_5, floor=6)
     ctx.run_rule("R19.7", "pretty gutter: Decorator width is derived from max(count_output_lines, expectations.len()) + base, an upper bound of every printed number (no `width - digits` underflow) [E-FLOW]", r19_7, floor=2)
+    ctx.run_rule("R19.8", "no renderer drops an outcome between its argument and its loop (copy / re-order only; no dedup, retain, filter, take ..) [E-SITE]", r19_8, floor=4)
     ctx.run_rule("R19.6", "index arithmetic in renderers listed (decided by R6.4 / C02)", r19_6, floor=1)
